@@ -51,29 +51,6 @@ def field(ans, key):
     return None
 
 
-def py_why(q):
-    """classification of an expected failure for tables the model does not cover (f64 / decimal
-    columns): only the mechanisms that do not depend on the cell text model"""
-    t = q.split(" ")
-    header, types, rows = t[4] == "1", t[5].split(","), t[6]
-    cells = [r.split(",") for r in rows.split(";")] if rows != "-" else []
-    if "blob" in types and cells:
-        return "blob-column"
-    if header and cells:
-        return "header"
-    if any(c == "null" for r in cells for c in r):
-        return "null-cell"
-    if any(c == "s:" for r in cells for c in r):
-        return "empty-string"
-    if any(c == "iv:0:0:0" for r in cells for c in r):
-        return "empty-text"
-    if t[3] != "-":
-        return "escape"
-    if any(c.startswith(("ts:", "date:", "iv:")) for r in cells for c in r):
-        return "cell-text-or-panic"
-    return None
-
-
 def run(ck):
     dist = Counter()
     mvi = Counter()
@@ -115,6 +92,18 @@ def run(ck):
             dist["header:" + t[4]] += 1
             for ty in t[5].split(","):
                 dist["type:" + ty] += 1
+            dist["optset:%s%s%s%s" % ("D" if t[1] != "44" else "-", "Q" if t[2] != "34" else "-", "E" if t[3] != "-" else "-", "H" if t[4] == "1" else "-")] += 1
+            if kind == "tbl" and t[2] != "34":
+                cells = [c for r_ in t[6].split(";") for c in r_.split(",") if c.startswith("s:")]
+                hq = "%02x" % int(t[2])
+                hd = "%02x" % int(t[1])
+                def has(c, h):
+                    b = c[2:]
+                    return any(b[k:k + 2] == h for k in range(0, len(b), 2))
+                if any(has(c, "22") for c in cells):
+                    dist["str:dquote-under-other-QUOTE"] += 1
+                if any(has(c, "22") and (has(c, hd) or has(c, hq) or has(c, "0a")) for c in cells):
+                    dist["str:dquote-in-quoted-field-under-other-QUOTE"] += 1
             unmod = m.startswith("unmodelled") or "import:unmodelled" in m
             if i.startswith(("create-failed", "load-failed", "harness-panic", "file:missing")):
                 ck.report("harness:" + i.split(":")[0], "harness could not set the case up: %s -> %s" % (q[:200], i[:200]), replay={"request": q, "impl": i}, found_input=False)
@@ -133,23 +122,26 @@ def run(ck):
                     nontrivial.add(q)
                 continue
             # ---- tbl
-            export_panic = m.startswith("export:panic")
-            if not unmod:
-                mvi["compared"] += 1
-                if export_panic:
-                    # model: a cell cannot be printed; implementation must not round-trip
-                    if field(i, "rt") != "false":
-                        mvi["disagree"] += 1
-                        ck.report("corr:export-panic", "model predicts a Display panic during export but the table round-trips: %s" % q[:300], replay={"request": q, "impl": i, "model": m})
-                elif norm(i) != norm(m):
+            if unmod:
+                # the model cannot judge a number text that came back changed: the file bytes are
+                # still compared; a failed round trip can then not be attributed to anything
+                dist["tbl-import-unmodelled"] += 1
+                if m.startswith("unmodelled") or field(i, "file") != field(m, "file"):
                     mvi["disagree"] += 1
-                    what = "file bytes" if field(i, "file") != field(m, "file") else "imported rows"
-                    ck.report("corr:" + ("export-bytes" if what == "file bytes" else "import-rows"),
-                              "model and implementation disagree (%s) on %s" % (what, q[:300]), replay={"request": q, "impl": i, "model": m})
-                # model vs oracle: the model's own prediction of the round trip is consistent with its tag
-                mvo["compared"] += 1
-            else:
-                dist["tbl-unmodelled"] += 1
+                    ck.report("corr:export-bytes", "model and implementation disagree (file bytes / request not understood) on %s" % q[:300],
+                              replay={"request": q, "impl": i[:3000], "model": m[:3000]})
+                if field(i, "rt") != "true":
+                    ck.report("roundtrip:unexplained:unmodelled-text", "table does not survive COPY TO + COPY FROM and the model cannot predict the result: %s -> %s" % (q[:300], i[-160:]),
+                              replay={"request": q, "impl": i[:3000], "model": m[:3000]})
+                continue
+            mvi["compared"] += 1
+            mvo["compared"] += 1
+            exact = norm(i) == norm(m)      # file bytes, imported rows / error class, rt flag
+            if not exact:
+                mvi["disagree"] += 1
+                what = "file bytes" if field(i, "file") != field(m, "file") else "imported rows"
+                ck.report("corr:" + ("export-bytes" if what == "file bytes" else "import-rows"),
+                          "model and implementation disagree (%s) on %s" % (what, q[:300]), replay={"request": q, "impl": i[:3000], "model": m[:3000]})
             # ---- oracle on the implementation
             ivo["compared"] += 1
             if field(i, "rt") == "true":
@@ -157,15 +149,18 @@ def run(ck):
                     nontrivial.add(q)
                 continue
             ivo["disagree"] += 1
-            why = field(m, "why") if not unmod else py_why(q)
-            if why == "cell-text-or-panic":
-                why = "cell-display-panic" if i.startswith("export:") or field(i, "import") == "err" and "rt:false" in i and False else "cell-text"
-            if why in WHY_SIG:
+            # A known finding absorbs a failed round trip ONLY when the model (which encodes the known
+            # defects) predicts exactly what was observed: same file bytes, same imported rows.
+            why = field(m, "why")
+            if exact and why in WHY_SIG:
                 sig, what = WHY_SIG[why]
                 dist["finding:" + sig] += 1
                 ck.report(sig, what + " — e.g. %s" % q[:200], replay={"request": q, "impl": i[:2000], "model": m[:2000]})
             else:
-                ck.report("roundtrip:" + t[5], "table does not survive COPY TO + COPY FROM: %s -> %s" % (q[:300], i[-200:]), replay={"request": q, "impl": i, "model": m})
+                dist["unexplained-roundtrip-failure"] += 1
+                ck.report("roundtrip:unexplained:" + ("model-differs" if not exact else "no-mechanism"),
+                          "table does not survive COPY TO + COPY FROM and the model of the known defects does not predict the observed result: %s -> %s (model: %s)" % (
+                              q[:300], i[-160:], m[-160:]), replay={"request": q, "impl": i[:3000], "model": m[:3000]})
     ck.log("correspondence: %d requests, model_vs_impl %s, impl_vs_oracle %s" % (len(total), dict(mvi), dict(ivo)))
     for name, st in bad.items():
         ck.report("thm:" + name, "theorem %s is not discharged (%s); the export/import oracle ran on %d generated cases" % (name, st.get("status"), len(total)),
